@@ -33,6 +33,10 @@ def handle (j : Json) : Json :=
     let ws := windows k tr
     Json.mkObj [("tracked", Json.arr (tr.map fun t => Json.arr #[toJson t.1, Json.str (String.ofList t.2)]).toArray),
                 ("windows", Json.arr (ws.map fun w => Json.mkObj [("start", w.start), ("stop", w.stop), ("snippet", J.ofStrs (w.snippet.map String.ofList))]).toArray)]
+  | "splitLines" =>
+    -- code points are sent as numbers: every character, including the ones JSON text would have to escape
+    let text : List Char := ((J.nats j "text").toOption.getD []).map Char.ofNat
+    Json.mkObj [("lines", Json.arr ((splitLines text).map fun l => Json.arr (l.map fun c => toJson c.toNat).toArray).toArray)]
   | _ => Json.mkObj [("error", "unknown op")]
 
 end ThaiLintModel.C12
